@@ -344,6 +344,12 @@ PROPS['C16'] = {
           'same with line_count() as the outer call, %d-byte texts' % n, cfg='sourcemap_verif')
         for n in (2, 3)
     ] + [
+        H('c16_lock_n2', 'sourceview', 'quick', 2400, 14,
+          'hook-independent variant: std::sync::Mutex::lock replaced (S7) by "let other threads run, then try_lock": every lock '
+          'acquisition of get_line/line_count is a yield point; every 2-byte text, outer get_line(any)', cfg='sourcemap_verif'),
+        H('c16_lock_count_n2', 'sourceview', 'thorough', 2400, 14, 'same with line_count() as the outer call', cfg='sourcemap_verif'),
+        H('c16_lock_n1', 'sourceview', 'thorough', 2400, 14, 'same, 1-byte texts', cfg='sourcemap_verif'),
+    ] + [
         H('c16_depth2_n%d' % n, 'sourceview', 'thorough', 3600, 14,
           'nested calls may themselves be interrupted once (depth 2), %d-byte texts' % n, cfg='sourcemap_verif')
         for n in (2, 3)
@@ -352,9 +358,12 @@ PROPS['C16'] = {
         'sequentialisation argument (DESIGN.md C16): all mutation of the view happens under its mutex, so between the atomic blocks '
         'of one call other threads can only run complete atomic blocks; their cumulative effect equals that of complete nested calls',
         'hook commits 210a631, 881b99b (--cfg sourcemap_verif): yield points immediately before the lock is taken, after the cache probe and after the finished check',
-        SV_STUBS],
+        SV_STUBS,
+        'S7 (c16_lock_* only): std::sync::Mutex::lock -> harness callback + try_lock; a WouldBlock there is reported as a self-deadlock'],
     'trusted': [SV_STUBS, 'std::sync::Mutex as modelled by Kani (single-threaded lock/try_lock)'],
     'outside': ['memory-model effects of Ordering::Relaxed (the argument uses only the mutex happens-before)', 'real-thread stress',
+                'windows that end without another lock acquisition and carry no yield point (a lock released early followed by unlocked reads and a return '
+                'is only seen through the source yield points 1 and 2)',
                 'interleavings inside a critical section (excluded by the mutex)', 'deadlock freedom beyond: no call blocks on a lock it holds'],
 }
 
